@@ -35,7 +35,7 @@ MODELLED = ('element_cached.py: find_odf_idx, make_cache_map, set/insert/delete_
 
 
 def run(tier, seed, replay=None):
-    return tr.run_table_check('C01', tier, seed, replay, 'chk01', LAYERS, SOFT, tl.OPS_CORE, trusted=TRUSTED, modelled=MODELLED, extra_targets=('Tablechk', 'TableExtchk', 'Tablexml2chk'),
+    return tr.run_table_check('C01', tier, seed, replay, 'chk01', LAYERS, SOFT, tl.OPS_CORE, trusted=TRUSTED, modelled=MODELLED, extra_targets=('Tablechk', 'TableExtchk', 'Tablexml2chk', 'TableXfchk'),
                               assumptions=['operations carry repeats >= 1 and integer coordinates of either sign',
                                            'tables consist of table:table-column elements followed by table:table-row elements'])
 
